@@ -220,7 +220,10 @@ Definition spec_code (c : c12case) : Z :=
                 (fun s o => if arg 0 o <=? zlen (fst s) then 0 else if snd s then 1601 else 1603) ([], false) tr
     else 9999 in
   if negb (bound_code =? 0) then bound_code
-  else if negb (comp =? 12) && grows3 (if comp =? 5 then map (firstn 1) (marks tr) else marks tr) then
+  (* component 11 is exempt from the growth heuristic: both of its coordinates are bounded at every
+     sample by the hard bound above, and its occupancy cycles modulo the media-packet count, so three
+     phase ends can increase by coincidence of the phase length (false alarm seen in the thorough tier) *)
+  else if negb (comp =? 12) && negb (comp =? 11) && grows3 (if comp =? 5 then map (firstn 1) (marks tr) else marks tr) then
     if (comp =? 13) || (comp =? 14) then (if arg 0 cfg =? 1 then 100 * comp + 4 else 100 * comp + 2)
     else if comp =? 15 then (if has_op 2 tr || has_op 3 tr then 1503 else 1502)
     else 100 * comp + 2
